@@ -402,7 +402,7 @@ impl<'a> Index<'a> {
             // if this target is under an existing target, add it as a dep
             let mut nodes = targets_trie
                 .common_prefix_search(target_path_str)
-                .filter(|t: &String| t != &target.path)
+                .filter(|t: &String| t != &target.path && file::is_path_prefix(t, target_path_str))
                 .map(|t| dag.get_node_by_label(&t).map_err(MonorailError::from))
                 .collect::<Result<Vec<usize>, MonorailError>>()?;
 
@@ -410,8 +410,10 @@ impl<'a> Index<'a> {
                 for s in uses {
                     let uses_path_str = s.as_str();
                     uses_builder.push(uses_path_str);
-                    let matching_targets: Vec<String> =
-                        targets_trie.common_prefix_search(uses_path_str).collect();
+                    let matching_targets: Vec<String> = targets_trie
+                        .common_prefix_search(uses_path_str)
+                        .filter(|t: &String| file::is_path_prefix(t, uses_path_str))
+                        .collect();
                     use2targets.entry(s).or_default().push(target_path_str);
                     // a dependency has been established between this target and some
                     // number of targets, so we update the graph
